@@ -8,3 +8,4 @@ import OmplModel.Props.C10
 #print axioms OmplModel.NN.gnat_inv_descends_partial
 #print axioms OmplModel.NN.gnat_sibling_prune_sound_partial
 #print axioms OmplModel.NN.gnat_radius_prune_sound_partial
+#print axioms OmplModel.NN.gnat_leaf_scanR_exact_partial
